@@ -17,6 +17,7 @@ import (
 )
 
 type copyGen struct {
+	empty   bool // containers are non-nil but empty
 	pkg     *types.Package
 	imports map[string]string // path -> name
 	n       int
@@ -145,6 +146,9 @@ func (g *copyGen) expr(T types.Type, depth int, choice bool, pre *strings.Builde
 		if depth > 3 {
 			return g.zero(T)
 		}
+		if g.empty {
+			return g.ts(T) + "{}"
+		}
 		return fmt.Sprintf("%s{%s, %s}", g.ts(T), g.expr(u.Elem(), depth+1, false, pre), g.expr(u.Elem(), depth+1, false, pre))
 	case *types.Array:
 		return g.zero(T)
@@ -153,7 +157,7 @@ func (g *copyGen) expr(T types.Type, depth int, choice bool, pre *strings.Builde
 			return g.zero(T)
 		}
 		k1, k2 := `"k1"`, `"k2"`
-		if b, ok := u.Key().Underlying().(*types.Basic); !ok || b.Info()&types.IsString == 0 {
+		if b, ok := u.Key().Underlying().(*types.Basic); !ok || b.Info()&types.IsString == 0 || g.empty {
 			return g.ts(T) + "{}"
 		}
 		if _, named := u.Key().(*types.Named); named {
@@ -252,7 +256,11 @@ func (g *copyGen) topExpr(T types.Type, pre *strings.Builder) string {
 		b.WriteString("}")
 		e = b.String()
 	case *types.Slice:
-		e = fmt.Sprintf("%s{%s, %s}", g.ts(T), g.fieldExpr(u.Elem(), pre), g.fieldExpr(u.Elem(), pre))
+		if g.empty {
+			e = g.ts(T) + "{}"
+		} else {
+			e = fmt.Sprintf("%s{%s, %s}", g.ts(T), g.fieldExpr(u.Elem(), pre), g.fieldExpr(u.Elem(), pre))
+		}
 	case *types.Map:
 		e = g.expr(T, 1, false, pre)
 	default:
@@ -278,6 +286,9 @@ func (g *copyGen) fieldExpr(T types.Type, pre *strings.Builder) string {
 	// slices/maps of interfaces: first element forks, the rest fixed
 	switch u := types.Unalias(T).Underlying().(type) {
 	case *types.Slice:
+		if g.empty {
+			return g.ts(T) + "{}"
+		}
 		if n, ok := types.Unalias(u.Elem()).(*types.Named); ok {
 			if _, isI := n.Underlying().(*types.Interface); isI {
 				return fmt.Sprintf("%s{%s, %s}", g.ts(T), g.expr(u.Elem(), 1, true, pre), g.expr(u.Elem(), 2, false, pre))
@@ -350,6 +361,18 @@ func generateCopyHarnesses() ([]byte, error) {
 		fmt.Fprintf(&body, "\tverifDeepEqualAssert(c, %s(o), \"C17:Copy(%s)\")\n", g.resultConv(recv, schemaPkg), n)
 		fmt.Fprintf(&body, "\tverifIndependentAssert(c, o, \"C17:Copy(%s)-shares\", %q)\n", n, copySkipTypes)
 		fmt.Fprintf(&body, "\tverifNoWrites(\"C17/C04:Copy(%s)-writes-original\", false)\n\tverifReach(\"end\")\n}\n\n", n)
+		// the variant with non-nil but empty containers (a copy that only copies non-empty containers would alias these)
+		if _, isStruct := T.Underlying().(*types.Struct); isStruct {
+			g.empty = true
+			g.n = 0
+			var preE strings.Builder
+			eE := g.topExpr(recv, &preE)
+			g.empty = false
+			fmt.Fprintf(&body, "func VerifH_C01C17_CopyEmpty_%s() {\n%s\to := %s\n\tverifFreeze()\n\tc := o.Copy()\n", n, preE.String(), eE)
+			fmt.Fprintf(&body, "\tverifDeepEqualAssert(c, %s(o), \"C17:CopyEmpty(%s)\")\n", g.resultConv(recv, schemaPkg), n)
+			fmt.Fprintf(&body, "\tverifIndependentAssert(c, o, \"C17:CopyEmpty(%s)-shares\", %q)\n", n, copySkipTypes)
+			fmt.Fprintf(&body, "\tverifReach(\"end\")\n}\n\n")
+		}
 		// the all-zero variant
 		if _, isPtr := recv.(*types.Pointer); isPtr {
 			fmt.Fprintf(&body, "func VerifH_C01C17_CopyZero_%s() {\n\to := &%s{}\n\tc := o.Copy()\n\tverifDeepEqualAssert(c, o, \"C17:CopyZero(%s)\")\n\tverifReach(\"end\")\n}\n\n", n, n, n)
